@@ -412,6 +412,12 @@ func batch(engine, prop, tier string, pe PropEngine) int {
 			fmt.Printf("KNOWN-FINDING: property=%s class=%s signature=%s observed=%v %s\n", prop, f.Class, f.Signature, observed[i], f.What)
 		}
 	}
+	for _, p := range pe.Meta().NonVacuous {
+		if agg.probes[p] == 0 {
+			agg.vacuous = append(agg.vacuous, p)
+			fmt.Printf("VACUOUS: property=%s probe %q stayed at zero: the oracle's interesting side was never exercised in this batch\n", prop, p)
+		}
+	}
 	wall := time.Since(t0).Seconds()
 	if err := agg.writeEvidence(pe.Meta(), prop, tier, base, total, nw, wall, unknown); err != nil {
 		fatalf("writing evidence: %v", err)
@@ -446,6 +452,7 @@ type aggregate struct {
 	samples  []json.RawMessage
 	digest   []byte
 	runs     int
+	vacuous  []string
 }
 
 func newAggregate() *aggregate {
